@@ -123,6 +123,8 @@ class DimTyper:
     def __init__(self, seed, calls=None):
         self.seed = seed
         self.calls = calls or {}
+        self.bound = {}
+        self.loop_init = {}
 
     def dim(self, t):
         k = t[0]
@@ -151,10 +153,28 @@ class DimTyper:
             return self.join([self.dim(t[2]), self.dim(t[3])], t)
         if k == "idx":
             return self.dim(t[1])
-        if k == "map":
-            return self.dim(t[1])
-        if k == "sum":
-            return self.dim(t[1])
+        if k in ("map", "sum"):
+            # the bound variable ranges over the elements of the iterable
+            try:
+                d_it = self.dim(t[3])
+            except AnalysisError:
+                d_it = None
+            old = self.bound.get(t[2])
+            self.bound[t[2]] = d_it
+            try:
+                return self.dim(t[1])
+            finally:
+                self.bound[t[2]] = old
+        if k == "lc":
+            init = self.loop_init.get((t[1], t[2]))
+            if init is None:
+                raise AnalysisError(f"dimension typing: loop-carried {T.show(t)} has no known initial value")
+            return self.dim(init)       # loop-carried value typed by its initial value (updates must preserve it)
+        if k == "bv":
+            d = self.bound.get(t)
+            if d is None:
+                raise AnalysisError(f"dimension typing: bound variable {T.show(t)} ranges over an untyped iterable")
+            return d
         if k == "concat":
             return self.join([self.dim(t[1]), self.dim(t[2])], t)
         if k == "upd":
@@ -372,3 +392,130 @@ def arrnf(t):
             return T.seq(x[1])
         return None
     return T.transform(t, f)
+
+
+# ------------------------------------------------------------------ affine weights (points vs. vectors) over terms
+TOP = "TOP"       # not an affine function of the translated coordinates (e.g. a product of two positions)
+
+
+SHIFT = ("sym", "<shift>")
+
+
+class AffTyper:
+    """Affine typing by symbolic translation: every seeded quantity q is replaced by q + s*w(q) (s a fresh symbol) and the
+    polynomial normal forms are compared.  weight(t) = (t[shifted] - t) / s when that quotient is s-free:
+    ZERO = translation invariant, ONE = a proper point, TOP = not affine.  Exact for polynomial terms, so
+    (p1.x - p0.x)**2 is invariant although its expansion contains squares of positions.
+    seed(atom) -> weight term | None;  calls: transfer kind per callable ('same' | 'vector' | 'invariant' | 'zero')"""
+
+    def __init__(self, seed, calls=None):
+        self.seed = seed
+        self.calls = calls or {}
+
+    def shifted(self, t):
+        sd = self.seed(t)
+        if sd is not None:
+            return T.add(t, T.mul(SHIFT, sd))
+        k = t[0]
+        if k in ("num", "bool", "str", "none", "sym", "bv", "mod", "opt", "fn", "cls", "lc", "slice"):
+            return t
+        if k == "poly":
+            out = T.ZERO
+            for m, c in t[1]:
+                mono = ("num", c)
+                for a, e in m:
+                    sa = self.shifted(a)
+                    if sa == TOP:
+                        return TOP
+                    if sa != a and (e.denominator != 1 or e < 0):
+                        return TOP                 # root / reciprocal of a translated quantity
+                    mono = T.mul(mono, T.power(sa, e))
+                out = T.add(out, mono)
+            return out
+        if k == "call":
+            fn = t[1]
+            key = fn if isinstance(fn, str) else fn[1] if fn[0] == "m" else None
+            kind = self.calls.get(key)
+            if kind is None:
+                raise AnalysisError(f"affine typing: no transfer rule for call {T.show(t)[:100]}")
+            ws = [self.weight(a) for a in t[2]]
+            if kind == "zero":
+                return t
+            if any(w == TOP for w in ws):
+                return TOP
+            if kind == "invariant":
+                return t if all(w == T.ZERO for w in ws) else TOP
+            if kind == "vector":
+                return t
+            if kind == "same":
+                w = ws[0] if ws else T.ZERO
+                if any(x != w for x in ws if x != T.ZERO) and len({x for x in ws}) > 1:
+                    return TOP
+                return T.add(t, T.mul(SHIFT, w))
+            raise AnalysisError(f"affine typing: unknown transfer kind {kind}")
+        if k in ("cmp", "ige", "and", "or", "not", "in", "exists", "forall"):
+            return t
+        # structural
+        out = []
+        for x in t:
+            if isinstance(x, tuple) and x and isinstance(x[0], str):
+                sx = self.shifted(x)
+                if sx == TOP:
+                    return TOP
+                out.append(sx)
+            elif isinstance(x, tuple):
+                sub = []
+                for y in x:
+                    if isinstance(y, tuple) and y and isinstance(y[0], str):
+                        sy = self.shifted(y)
+                        if sy == TOP:
+                            return TOP
+                        sub.append(sy)
+                    else:
+                        sub.append(y)
+                out.append(tuple(sub))
+            else:
+                out.append(x)
+        return tuple(out)
+
+    def weight(self, t):
+        if t[0] in ("seq", "arr"):
+            ws = [self.weight(x) for x in t[1]]
+            if any(w == TOP for w in ws):
+                return TOP
+            return ws[0] if ws and all(w == ws[0] for w in ws) else (T.ZERO if not ws else TOP)
+        if t[0] == "phi":
+            a, b = self.weight(t[2]), self.weight(t[3])
+            return a if a == b else TOP
+        if t[0] in ("map", "sum"):
+            return self.weight(t[1])
+        if t[0] == "idx":
+            sd = self.seed(t)
+            if sd is None:
+                return self.weight(t[1])
+        st = self.shifted(t)
+        if st == TOP:
+            return TOP
+        try:
+            d = T.sub(st, t)
+        except Exception:
+            return TOP
+        if d == T.ZERO:
+            return T.ZERO
+        if T.substitute(d, {SHIFT: T.ZERO}) != T.ZERO:
+            return TOP
+        W = T.substitute(d, {SHIFT: T.ONE})
+        if T.contains(W, SHIFT) or T.mul(SHIFT, W) != d:
+            return TOP
+        return W
+
+
+BASIC_AFF_CALLS = {
+    "mean": "same", "median": "same", "numpy.mean": "same", "max": "same", "min": "same", "numpy.max": "same", "numpy.min": "same",
+    "numpy.roll": "same", "numpy.array": "same", "list": "same", "float": "same", "astype": "same", "transpose": "same",
+    "numpy.concatenate": "same", "copy": "same", "flatten": "same", "zip": "same",
+    "numpy.gradient": "vector", "numpy.diff": "vector",
+    "numpy.linalg.norm": "invariant", "abs": "invariant", "numpy.sign": "invariant", "numpy.arccos": "invariant",
+    "numpy.sum": "invariant", "sum": "invariant", "numpy.dot": "invariant", "matmul": "invariant", "round": "invariant", "int": "invariant",
+    "len": "zero", "index": "zero", "numpy.count_nonzero": "zero", "range": "zero", "numpy.zeros": "zero", "numpy.ones": "zero", "numpy.empty": "zero",
+}
